@@ -237,7 +237,7 @@ def alias_grid(ctx, shard):
                 gm = peaks.model.GaussianModel(prefix='g_')
                 pm = peaks.model.PolynomialModel(degree=2, prefix='p_')
                 gp = {'g_amplitude': sc.scalar(2.0), 'g_loc': sc.scalar(4.0, unit='angstrom'), 'g_scale': sc.scalar(0.3, unit='angstrom')}
-                pp = {'p_a0': sc.scalar(1.0), 'p_a1': sc.scalar(0.1, unit='1/angstrom'), 'p_a2': sc.scalar(0.01, unit='1/angstrom^2')}
+                pp = {'p_a0': sc.scalar(1.0, unit='1/angstrom'), 'p_a1': sc.scalar(0.1, unit='1/angstrom^2'), 'p_a2': sc.scalar(0.01, unit='1/angstrom^3')}
                 call('GaussianModel.__call__', lambda: gm(x, **gp))
                 call('PolynomialModel.__call__', lambda: pm(x, **pp))
                 call('CompositeModel.__call__', lambda: (gm + pm)(x, **gp, **pp))
@@ -437,16 +437,16 @@ def family_models():
     p = M.PolynomialModel(degree=2, prefix='b_')
     lz = M.LorentzianModel(prefix='a_l_')
     c = g + p
-    x = sc.linspace('x', -1.0, 1.0, 7, unit='m')
+    x = sc.linspace('x', -1.0, 1.0, 7, unit='one')
 
     def params(m):
         out = {}
         for nme in sorted(m.param_names):
             base = nme.split('_')[-1]
             if base in ('loc', 'scale'):
-                out[nme] = sc.scalar(0.3, unit='m')
+                out[nme] = sc.scalar(0.3)
             elif base.startswith('a') and base[1:].isdigit():
-                out[nme] = sc.scalar(0.5, unit=sc.Unit('one') / sc.Unit('m') ** int(base[1:]))
+                out[nme] = sc.scalar(0.5)
             elif base == 'fraction':
                 out[nme] = sc.scalar(0.4)
             else:
@@ -582,7 +582,7 @@ def history(ctx, shard):
                 break
         if poisoned_by:
             break
-    ctx.extra[f'history_{fam}'] = {'factories': names, 'alphabet': len(alphabet), 'sequences': total,
+    ctx.extra[f'history_{fam}' + (f'_part{first}' if first is not None else '')] = {'factories': names, 'alphabet': len(alphabet), 'sequences': total,
                                    'max_length': maxlen, 'stopped_after_poisoning': poisoned_by}
     if first is None and not poisoned_by:
         ctx.extra['exhaustive'] = True
@@ -654,7 +654,7 @@ def run(shard, ctx):
         history(ctx, shard)
     elif shard['kind'] == 'pytest':
         pytest_shard(ctx, shard)
-    ctx.extra.setdefault('shard_wall', {})[shard['kind'] + ':' + str(shard.get('module') or shard.get('family') or shard.get('paths') or '')] = round(time.time() - t0, 1)
+    ctx.extra['shard_wall:' + shard['kind'] + ':' + str(shard.get('module') or shard.get('family') or shard.get('paths') or '') + ':' + str(shard.get('first', ''))] = round(time.time() - t0, 1)
 
 
 FINDING_PREDICATES = {}
